@@ -25,7 +25,7 @@ pub struct Scn {
     pub resources: Vec<Vec<Check>>,
     pub failure_threshold: u32,
     pub success_threshold: u32,
-    /// 0 first available, 1 round robin, 2 prefer healthy, 3 custom (last usable)
+    /// 0 first available, 1 round robin, 2 prefer healthy, 3 custom (last usable), 4 custom (last candidate, whatever its status)
     pub strategy: u8,
     pub initial_delay_ms: u64,
     /// (at_ms, kind): 0 start() again, 1 stop()+start(), 2 stop()
@@ -104,7 +104,7 @@ pub fn gen(rng: &mut Rng) -> Scn {
         resources,
         failure_threshold: rng.range(1, 4) as u32,
         success_threshold: rng.range(1, 4) as u32,
-        strategy: rng.below(4) as u8,
+        strategy: rng.below(5) as u8,
         initial_delay_ms: *rng.pick(&[0u64, 10]),
         restarts,
         observe_at_ms,
@@ -121,7 +121,7 @@ pub fn valid(s: &Scn) -> bool {
         && s.failure_threshold <= 5
         && s.success_threshold >= 1
         && s.success_threshold <= 5
-        && s.strategy <= 3
+        && s.strategy <= 4
         && s.initial_delay_ms % 5 == 0
         && s.initial_delay_ms <= 50
         && s.restarts.len() <= 3
@@ -192,7 +192,9 @@ pub fn run(s: &Scn, ctx: &mut RunCtx) -> RunOutput {
                 0 => SelectionStrategy::FirstAvailable,
                 1 => SelectionStrategy::RoundRobin,
                 2 => SelectionStrategy::PreferHealthy,
-                _ => SelectionStrategy::Custom(Arc::new(|st: &[HealthStatus]| st.iter().rposition(|x| x.is_usable()))),
+                3 => SelectionStrategy::Custom(Arc::new(|st: &[HealthStatus]| st.iter().rposition(|x| x.is_usable()))),
+                // a custom strategy that trusts the candidate list it is given: the last candidate
+                _ => SelectionStrategy::Custom(Arc::new(|st: &[HealthStatus]| st.len().checked_sub(1))),
             });
         for r in 0..nres {
             b = b.with_context(r as u32, format!("r{}", r));
